@@ -2,30 +2,34 @@
 import numpy as np
 import openmdao.api as om
 
-from progfam.library import LIBRARY, IMPLICIT
+from progfam.library import LIBRARY, IMPLICIT, IDX_FAMILY
 
 LEVEL = 'model_checking'
 EXPLANATION = ('Whole-Problem symbolic runs over the program family: every source output element is a symbolic real; '
                'after run_model (and at the entry of every component evaluation) each input element must equal the '
                'ground-truth dataflow value NumPy-index-chain(source) converted with the library unit factors.  The '
                'ground truth comes from the generator, never from OpenMDAO name resolution.')
-BOUNDS = dict(programs='library of hand-built members (see progfam/library.py) + seeded random members in thorough',
+BOUNDS = dict(programs='13 hand-built members of progfam/library.py (quick); thorough adds the index-form family: 11 NumPy index forms x '
+              '{connect, promotes} x {no units, m->cm, degC->degF} = 66 one-consumer programs; structures are enumerated, not quantified',
               variable_size='<= 6', index_forms='int arrays with negatives/duplicates, slices incl. negative step, tuple (slice, list), '
               'flat and non-flat, 1-D/2-D sources, promotes src_indices at 1-2 levels', units='m/cm/mm, degC/degF/degK/degR')
 STUBS = []
 ASSUMPTIONS = ['reals; unit factors/offsets are the float64 library constants (1e-9 margin where units differ)']
-OUTSIDE = ['distributed variables / MPI', 'inputs inside iterating nonlinear solvers (converged-state form only)']
+OUTSIDE = ['distributed variables / MPI', 'N-D arrays of flat indices (rejected by OpenMDAO at setup)', 'inputs inside iterating nonlinear solvers (converged-state form only)']
 
 
 def harnesses(tier, seed):
     jobs = [dict(fn='h_prog', params=dict(prog=name)) for name in LIBRARY]
     jobs += [dict(fn='h_prog', params=dict(prog=name)) for name in IMPLICIT]
     jobs.append(dict(fn='h_discrete', params={}))
+    if tier != 'quick':
+        # index-form family: 11 NumPy index forms x {connect, promotes} x {no units, factor, factor+offset}
+        jobs += [dict(fn='h_prog', params=dict(prog=name)) for name in IDX_FAMILY]
     return jobs
 
 
 def _get(name):
-    return (LIBRARY.get(name) or IMPLICIT[name])()
+    return (LIBRARY.get(name) or IMPLICIT.get(name) or IDX_FAMILY[name])()
 
 
 def h_prog(ctx, prog):
